@@ -174,12 +174,20 @@ def resolveAdd (txn : Cid) (L R : Live) : Bool × Live :=
   if incomingLoses cidLt L.crAt R.crAt then (false, R)
   else ((if copyOnlyAtOrigin then decide (R.crAt.sUuid = txn.sUuid) else true), L)
 
-/-- What `consumer_incremental_apply_entries` writes for the uuid of one incoming entry. -/
+/-- `Entry::seal`: `ecstate.retain(|k, _| schema.is_replicated(k))` (last-modified / created-at are
+recomputed, see `lastMod`). -/
+def sealSt (repl : Nat → Bool) : St → St
+  | .live e => .live { e with changes := e.changes.filter (fun c => repl c.1) }
+  | .tomb a => .tomb a
+
+/-- What `consumer_incremental_apply_entries` writes for the uuid of one incoming entry: the conflict
+partition, `resolve_add_conflict` or `merge_state`, then `validate_repl(..).seal(..)` (a merge result
+that fails the schema is parked as a conflict by `validate_repl`: not modelled). -/
 def applyEntry (vm : Nat → Nat → Option Nat) (repl : Nat → Bool) (txn : Cid) (inc db : St) : St :=
-  match inc, db with
-  | .live L, .live R =>
-    if isAddConflict inc db then .live (resolveAdd txn L R).2 else mergeState vm repl inc db
-  | _, _ => mergeState vm repl inc db
+  sealSt repl (match inc, db with
+    | .live L, .live R =>
+      if isAddConflict inc db then .live (resolveAdd txn L R).2 else mergeState vm repl inc db
+    | _, _ => mergeState vm repl inc db)
 
 /-- A requested range `server ↦ (ts_min, ts_max)`. -/
 abbrev Ranges := List (Nat × (Nat × Nat))
